@@ -1,6 +1,7 @@
 /-
 Executable model of `pydl.pydlutils.spheregroup.spherematch` (C04) and of the
-parts of class `chunks` it uses, after the `fix:` commits of branch work-C04.
+parts of class `chunks` it uses, after the `fix:` commits of branch work-C04 and the upper-boundary rule added by C05
+(`decIndex`).
 
 Layer 1 (combinatorial core, abstract data): `matchRaw` (the double loop,
 lines 619-630), `applyPerm` (`x[s]` for the permutation returned by argsort - an
@@ -213,6 +214,12 @@ def raMarginOf (cosDecMin dec m : α) : α :=
   let sinHalf := Trig.sin (deg2rad (0.5 * m)) / Trig.sqrt (cosDecMin * cosd dec)
   if sinHalf < 1 then 2 * rad2deg (Trig.arcsin sinHalf) else 360
 
+/-- the declination band index used by `get` and `getbounds`: the floor formula, with the rule
+that a point ON the upper boundary belongs to the last slice (lines 201-206 / 258-260) -/
+def decIndex (g : Grid α) (dec : α) : Int :=
+  let d := cellIndex g.decBounds g.nDec dec
+  if d = (g.nDec : Int) ∧ dec ≤ g.decBounds.getD g.nDec 0 then (g.nDec : Int) - 1 else d
+
 structure Bounds where
   decMin : Nat
   decMax : Nat
@@ -221,7 +228,7 @@ structure Bounds where
 
 /-- `chunks.getbounds` -/
 def getbounds (g : Grid α) (ra dec m : α) : Except String Bounds := do
-  let d0 := cellIndex g.decBounds g.nDec dec
+  let d0 := decIndex g dec
   if d0 < 0 ∨ d0 > (g.nDec : Int) - 1 then throw "PydlutilsException: decChunkMin out of range"
   let d0 := d0.toNat
   let dMin := decDown g.decBounds dec m d0
@@ -271,7 +278,7 @@ def assign (g : Grid α) (ra dec : Array α) (m : α) : Except String (Tab CellS
 /-- `chunks.get`; an out-of-range dec chunk (raChunk = -1 in the code, then
 Python's negative indexing) is not modelled: unreachable for first-list points -/
 def get (g : Grid α) (ra dec : α) : Except String (Nat × Nat) := do
-  let d := cellIndex g.decBounds g.nDec dec
+  let d := decIndex g dec
   if d < (g.nDec : Int) ∧ d ≥ 0 then
     let d := d.toNat
     let n := g.nRa.getD d 0
